@@ -106,6 +106,10 @@ struct World {
     tables: String, // "<widths> <sizes> <rasters> <alphabet>"
     n_chars: usize, // alphabet[0..n_chars] are character cells
     plain: Vec<bool>,
+    /// image id -> first id with the same pixels and size (what a terminal can tell apart)
+    content: Vec<usize>,
+    /// alphabet[crop_start..crop_start + 8]: crops of one picture (ids 2..5) in faces 0 and 3
+    crop_start: usize,
 }
 
 const CHARS: &[char] = &[' ', 'a', 'b', 'x', '世', '🤩'];
@@ -141,6 +145,18 @@ impl World {
         let ppc = tsize.pixels_per_cell();
         // two images of different cell sizes: 1x2 and 2x3 cells
         let mut images = vec![make_image(3, 15, 10), make_image(25, 21, 200)];
+        // crops of ONE backing picture (they share the allocation): two of the same size (1x2 cells),
+        // one larger (2x2 cells), and a copy of the first crop's pixels in another allocation
+        let pic = make_image(40, 30, 77);
+        let crop_a = pic.crop(0..20usize, 0..20usize);
+        let crop_b = pic.crop(20..40usize, 10..30usize);
+        let crop_c = pic.crop(0..40usize, 0..20usize);
+        let copy_a = {
+            let mut surf: SurfaceOwned<RGBA> = SurfaceOwned::new(crop_a.size());
+            surf.fill_with(|pos, _| *crop_a.get(pos).unwrap());
+            Image::from(surf)
+        };
+        images.extend([crop_a, crop_b, crop_c, copy_a]);
         let glyph: Glyph = serde_json::from_str(
             r#"{"view_box":[0,0,24,24],"size":[1,2],"path":"M10,17L5,12L6.41,10.58L10,14.17L17.59,6.58L19,8M12,2A10,10 0 0,0 2,12A10,10 0 0,0 12,22A10,10 0 0,0 22,12A10,10 0 0,0 12,2Z"}"#,
         )
@@ -189,7 +205,17 @@ impl World {
             alpha.push(Sym { face: fi, kind: SymKind::Gly(0) });
             cells.push(Cell::new_glyph(faces[fi], glyph.clone()));
         }
+        let crop_start = alpha.len();
+        for img in 2..6 {
+            for fi in [0usize, 3] {
+                alpha.push(Sym { face: fi, kind: SymKind::Img(img) });
+                cells.push(Cell::new_image(images[img].clone()).with_face(faces[fi]));
+            }
+        }
         assert!(alpha.len() <= SYMS.len());
+        // pictures with the same pixels and size are the same picture to a terminal
+        let content: Vec<usize> =
+            (0..images.len()).map(|i| (0..=i).find(|&j| same_image(&images[j], &images[i])).unwrap()).collect();
         let ws: Vec<String> = widths.iter().map(|(c, w)| format!("{c}:{w}")).collect();
         let ss: Vec<String> = sizes.iter().enumerate().map(|(i, (h, w))| format!("{i}:{h}:{w}")).collect();
         let rs: Vec<String> = raster.iter().map(|(f, g, i)| format!("{f}:{g}:{i}")).collect();
@@ -204,7 +230,7 @@ impl World {
         let np: Vec<String> = plain.iter().enumerate().filter(|(_, p)| !**p).map(|(i, _)| i.to_string()).collect();
         let np = if np.is_empty() { "-".to_string() } else { np.join(",") };
         let tables = format!("{} {} {} {} {}", ws.join(","), ss.join(","), rs.join(","), np, al.join(","));
-        World { faces, images, sizes, raster, widths, alpha, cells, tables, n_chars, plain }
+        World { faces, images, sizes, raster, widths, alpha, cells, tables, n_chars, plain, content, crop_start }
     }
     fn width(&self, ch: u32) -> usize {
         *self.widths.get(&ch).unwrap_or(&1)
@@ -212,8 +238,21 @@ impl World {
     fn face_id(&self, f: &Face) -> usize {
         self.faces.iter().position(|x| x == f).unwrap_or(99)
     }
+    /// Identifier of an image the renderer hands out.  The model's identifiers stand for the images the
+    /// application created (allocation + view), so an image of the alphabet is recognised by its storage
+    /// and shape — NOT by `Image: PartialEq`, which is code under test; anything else (rasterised
+    /// glyphs, which every renderer creates anew) by its pixels and size.
     fn image_id(&self, i: &Image) -> usize {
-        self.images.iter().position(|x| same_image(x, i)).unwrap_or(999)
+        let same_view = |x: &Image| std::ptr::eq(x.data().as_ptr(), i.data().as_ptr()) && x.shape() == i.shape();
+        self.images
+            .iter()
+            .position(same_view)
+            .or_else(|| self.images.iter().position(|x| same_image(x, i)))
+            .unwrap_or(999)
+    }
+    /// what a terminal shows for an image identifier: the picture (pixels + size)
+    fn picture(&self, id: usize) -> usize {
+        *self.content.get(id).unwrap_or(&id)
     }
     /// image placed by a symbol (a glyph is drawn as its rasterisation)
     fn img_of(&self, s: u8) -> Option<usize> {
@@ -900,7 +939,10 @@ fn judge(world: &World, hist: &Hist) -> Verdict {
         }
         if let Step::Frame(f) = step {
             let want = display(world, hist.h, hist.w, f);
-            if scr.grid != want.grid || scr.place != want.place || err.is_some() {
+            let pics = |m: &BTreeMap<(usize, usize), usize>| -> Vec<((usize, usize), usize)> {
+                m.iter().map(|(k, v)| (*k, world.picture(*v))).collect()
+            };
+            if scr.grid != want.grid || pics(&scr.place) != pics(&want.place) || err.is_some() {
                 let mut got = scr.rows(world);
                 if let Some(e) = err {
                     got.push(e);
@@ -1085,7 +1127,13 @@ fn random_cell(world: &World, rng: &mut Rng, class: Class) -> u8 {
         }
         _ => match rng.below(10) {
             0 | 1 if class != Class::ImagesPlaced => 4 + rng.below(2) as usize,
-            2 => return (world.n_chars + (rng.below(3) as usize) * world.faces.len() + face) as u8,
+            2 => {
+                return if rng.chance(1, 3) {
+                    (world.crop_start + rng.below(8) as usize) as u8
+                } else {
+                    (world.n_chars + (rng.below(3) as usize) * world.faces.len() + face) as u8
+                };
+            }
             _ => narrow(rng),
         },
     };
@@ -1177,7 +1225,11 @@ fn random_hist(world: &World, rng: &mut Rng, big: bool) -> (Hist, Class) {
     if class == Class::Kept && h * w > 0 {
         for _ in 0..1 + rng.below(2) {
             let q = rng.below((h * w) as u64) as usize;
-            base[q] = (world.n_chars + (rng.below(3) as usize) * nf + rng.below(nf as u64) as usize) as u8;
+            base[q] = if rng.chance(1, 2) {
+                (world.crop_start + rng.below(8) as usize) as u8
+            } else {
+                (world.n_chars + (rng.below(3) as usize) * nf + rng.below(nf as u64) as usize) as u8
+            };
         }
         repair(world, h, w, &mut base);
     }
@@ -1207,6 +1259,12 @@ fn random_hist(world: &World, rng: &mut Rng, big: bool) -> (Hist, Class) {
                 }
                 if base[q] != 0 && (rng.chance(9, 10) || world.img_of(base[q]).is_none()) {
                     s[q] = base[q];
+                    // an image cell is replaced in place by another crop of the same picture (same
+                    // size, other size) or by a copy of its pixels in another allocation
+                    if (base[q] as usize) >= world.crop_start && rng.chance(2, 3) {
+                        let slot = (base[q] as usize - world.crop_start) % 2;
+                        s[q] = (world.crop_start + 2 * rng.below(4) as usize + slot) as u8;
+                    }
                 }
             }
             repair(world, h, w, &mut s);
@@ -1322,6 +1380,22 @@ fn corner_cases(world: &World) -> Vec<Hist> {
         }
         // an image in such a face
         res.push(Hist { h: 3, w: 6, clear0: false, init: None, session: false, steps: vec![frame(3, 6, &[(0, 1, img(1, f)), (2, 0, gly(f))]), frame(3, 6, &[(0, 1, img(1, f)), (2, 2, gly(f)), (2, 0, sym(0, f))])] });
+    }
+    // an image cell replaced in place by (a) another crop of the same backing picture with the same size,
+    // (b) a crop of another size, (c) a copy of its pixels in another allocation, and back
+    for slot in 0..2usize {
+        let crop = |k: usize| (world.crop_start + 2 * k + slot) as u8;
+        for (a, b) in [(0usize, 1usize), (0, 2), (0, 3), (1, 0), (2, 0), (3, 0), (2, 1), (3, 1)] {
+            res.push(Hist { h: 3, w: 6, clear0: false, init: None, session: false, steps: vec![
+                frame(3, 6, &[(0, 1, crop(a)), (2, 0, sym(1, 0))]),
+                frame(3, 6, &[(0, 1, crop(b)), (2, 0, sym(1, 0))]),
+                frame(3, 6, &[(0, 1, crop(a)), (2, 0, sym(2, 0))]),
+            ] });
+        }
+        res.push(Hist { h: 3, w: 6, clear0: false, init: None, session: true, steps: vec![
+            frame(3, 6, &[(1, 2, crop(0))]), frame(3, 6, &[(1, 2, crop(1))]), Step::Skip, frame(3, 6, &[(1, 2, crop(2))]),
+            Step::Recreate, frame(3, 6, &[(1, 2, crop(3))]), frame(3, 6, &[(1, 2, crop(0))]),
+        ] });
     }
     // the frame is drawn before clear() (frame-drop path), directly and through run_render
     for session in [false, true] {
